@@ -476,10 +476,13 @@ theorem foldOp_replicate_add_fin (q : Rat) (n : Nat) :
 /-! ### The proved rule set -/
 
 
-/-- Model rules with a `Sound` theorem above (the rest of `ruleTable` is executable-only and tied to the code
-    by the harness: contractionDropUnits, contractionFlattenBin, contractionFuseSameRed, lambdaGetitem,
-    stackSelect, reduceUnrelated — their soundness needs unit/associativity laws of the broadcasting product or
-    the coincidence lemma for `denote`, not proved here). -/
+/-- Model rules with an exact `Sound` theorem in THIS file (fed to `interp_sound`).  Further rules are proved in
+    Props/C02/Rules2.lean (contractionToReduce, contractionToBinary, stackSelect, subsFuseNormalize: exact `Sound`;
+    reduceUnrelated: `SoundE`; contractionFuseSameRed: for total associative reductions, instances max/min/add) and
+    Props/C02/Rules3.lean (contractionDropUnits: product level for any reduction, rule level without reduction,
+    instances add/mul/max/min).  Still executable-only (tied to the code by the harness): contractionFlattenBin
+    (needs associativity of the broadcasting product), lambdaGetitem (definedness / shape uniformity differ),
+    reduceUnrelatedMul (the term language's `pow` is undefined on ±∞). -/
 def provedRules : List (String × Rule) :=
   [("binaryToContract", binaryToContract), ("reduceToContract", reduceToContract),
    ("contractionNoVars", contractionNoVars), ("contractionSingleTerm", contractionSingleTerm),
